@@ -18,7 +18,7 @@ OBSERVERS = ['log_z', 'n_eff', 'eta', 'f_live', 'log_v_live', 'posterior', 'occu
 
 MC_INVARIANTS = ['Aligned', 'ShellPartition', 'InCube', 'NoDup', 'TqDisjoint', 'TriplesFaithful',
                  'CountLeProposals', 'ExpSplitSane', 'NLikeExact', 'BudgetRespected',
-                 'NonEmptyAfterExploration']
+                 'NonEmptyAfterExploration', 'OccupationTriangular']
 MC_PROPERTIES = ['ExploredStable', 'FrozenBounds', 'AppendOnly', 'ExpSplitFrozen', 'EvalImmutable',
                  'NLikeMonotone', 'ReturnIffDone']
 
